@@ -129,6 +129,7 @@ package requests
 //@   ensures  [sent]   $r1 ==> !$r0 && len(rs.requested) == old(len(rs.requested)) - 1 && len(rs.queue) == old(len(rs.queue)) && !Member(rs, int(index))
 //@   ensures  [queued] $r0 ==> !$r1 && len(rs.queue) == old(len(rs.queue)) - 1 && len(rs.requested) == old(len(rs.requested)) && !Member(rs, int(index))
 //@   ensures  [none]   !$r0 && !$r1 ==> len(rs.queue) == old(len(rs.queue)) && len(rs.requested) == old(len(rs.requested))
+//@   ensures  [qelems] forall k int :: 0 <= k && k < len(rs.queue) ==> rs.queue[k].index == old(rs.queue[k].index) || (old(len(rs.queue)) > 0 && rs.queue[k].index == old(rs.queue[len(rs.queue)-1].index))
 //@   ensures  [bitsq]  RBitsQ(rs)
 //@   ensures  [bitsr]  RBitsR(rs)
 //@   ensures  [distq]  RDistQ(rs)
